@@ -35,3 +35,15 @@ Proof.
   revert l; induction a as [|a IH]; intros l; [reflexivity|].
   destruct l as [|x l]; [cbn; rewrite firstn_nil; reflexivity|]. cbn. f_equal. apply IH.
 Qed.
+
+Lemma in_firstn {A} (l : list A) n x : In x (firstn n l) -> In x l.
+Proof.
+  revert n; induction l as [|y l IH]; intros n H; [rewrite firstn_nil in H; exact H|].
+  destruct n; [destruct H|]. cbn in H. destruct H as [->|H]; [left; reflexivity | right; eapply IH, H].
+Qed.
+
+Lemma in_skipn {A} (l : list A) n x : In x (skipn n l) -> In x l.
+Proof.
+  revert l; induction n as [|n IH]; intros l H; [exact H|].
+  destruct l as [|y l]; [exact H|]. right. apply IH, H.
+Qed.
